@@ -265,6 +265,7 @@ pub fn state_message(b: &[u8]) -> Option<Vec<Scalar>> {
 pub fn establish_customer(ctx: &mut Ctx, w: &World, hidden: &Agreed) -> Option<EstRun> {
     let book = ctx.book.clone();
     let mut rng = crate::rng::ScriptedRng::new(ctx.prng.gen(), book.clone());
+    if !ctx.forced_next.is_empty() { let f = std::mem::take(&mut ctx.forced_next); rng.force_scalars(&f); }
     let _ = verif_hooks::drain_challenges();
     let (mbal, cbal) = (MerchantBalance::try_new(hidden.mb).ok()?, CustomerBalance::try_new(hidden.cb).ok()?);
     let (requested, proof) = customer::Requested::new(&mut rng, &w.customer, hidden.cid, mbal, cbal, &hidden.context());
